@@ -10,14 +10,14 @@ import (
 
 type sink struct{ b []byte }
 
-func (w *sink) pos() int      { return len(w.b) }
-func (w *sink) u8(v uint8)    { w.b = append(w.b, v) }
-func (w *sink) u16(v uint16)  { w.b = binary.BigEndian.AppendUint16(w.b, v) }
-func (w *sink) u24(v uint32)  { w.b = append(w.b, byte(v>>16), byte(v>>8), byte(v)) }
-func (w *sink) u32(v uint32)  { w.b = binary.BigEndian.AppendUint32(w.b, v) }
-func (w *sink) u64(v uint64)  { w.b = binary.BigEndian.AppendUint64(w.b, v) }
-func (w *sink) raw(p []byte)  { w.b = append(w.b, p...) }
-func (w *sink) zeros(n int)   { w.b = append(w.b, make([]byte, n)...) }
+func (w *sink) pos() int     { return len(w.b) }
+func (w *sink) u8(v uint8)   { w.b = append(w.b, v) }
+func (w *sink) u16(v uint16) { w.b = binary.BigEndian.AppendUint16(w.b, v) }
+func (w *sink) u24(v uint32) { w.b = append(w.b, byte(v>>16), byte(v>>8), byte(v)) }
+func (w *sink) u32(v uint32) { w.b = binary.BigEndian.AppendUint32(w.b, v) }
+func (w *sink) u64(v uint64) { w.b = binary.BigEndian.AppendUint64(w.b, v) }
+func (w *sink) raw(p []byte) { w.b = append(w.b, p...) }
+func (w *sink) zeros(n int)  { w.b = append(w.b, make([]byte, n)...) }
 func (w *sink) fourcc(s string) {
 	var t [4]byte
 	copy(t[:], s)
